@@ -21,6 +21,18 @@ def flat (dag : Dag) : Nat → Node → List Nat
        | some rn => if rn.members ≠ [] then flat dag fuel rn else [r]
        | none => [r]) ++ tail
 
+/-- every name inside a fused node: its members and, recursively, those of a nested first member -/
+def inner (dag : Dag) : Nat → Node → List Nat
+  | 0, _ => []
+  | fuel+1, f =>
+    f.members ++
+    (match f.members with
+     | [] => []
+     | r :: _ =>
+       match getNode dag r with
+       | some rn => if rn.members ≠ [] then inner dag fuel rn else []
+       | none => [])
+
 /-- an ordinary blockwise node stored under its own name -/
 def plainAt (dag : Dag) (n : Nat) : Bool :=
   match getNode dag n with
@@ -29,10 +41,11 @@ def plainAt (dag : Dag) (n : Nat) : Bool :=
 
 /-- structure of one nesting level (and, recursively, of a nested first member):
     * `f` is a blockwise node with the `Fused` broadcast rule, `members = r :: tail`;
-    * every non-first member is an ordinary blockwise node (nested groups only in first position);
+    * every non-first member is an ordinary blockwise node (nested groups only in first position)
+      that does not also occur inside the nested first member;
     * the first member has the partition count of `f` and is ordinary or, recursively, a fused node;
     * members have smaller names than `f` (a `Fused` is created after its members);
-    * no dependency of `f` is one of its flattened members. -/
+    * no dependency of `f` is `f` itself or a name inside `f`. -/
 def levelOK (dag : Dag) : Nat → Node → Bool
   | 0, _ => false
   | fuel+1, f =>
@@ -44,9 +57,11 @@ def levelOK (dag : Dag) : Nat → Node → Bool
        (match getNode dag r with
         | some rn =>
           rn.blockwise && rn.name == r && rn.npart == f.npart &&
-            (if rn.members ≠ [] then levelOK dag fuel rn else true)
+            (if rn.members ≠ [] then
+               levelOK dag fuel rn && tail.all (fun t => !decide (t ∈ inner dag fuel rn))
+             else true)
         | none => false)) &&
-    f.deps.all (fun d => !decide (d ∈ flat dag (fuel+1) f))
+    f.deps.all (fun d => !decide (d ∈ inner dag (fuel+1) f) && !decide (d = f.name))
 
 /-- conditions on the flattened members `S` of the outermost node `f`. -/
 def membersOK (dag : Dag) (f : Node) (S : List Nat) : Bool :=
@@ -72,8 +87,7 @@ def nodupB : List Nat → Bool
   | a :: l => !decide (a ∈ l) && nodupB l
 
 def fusedOK (dag : Dag) (f : Node) : Bool :=
-  levelOK dag (f.name + 1) f && nodupB (flat dag (f.name + 1) f) &&
-    membersOK dag f (flat dag (f.name + 1) f)
+  levelOK dag (f.name + 1) f && membersOK dag f (flat dag (f.name + 1) f)
 
 /-- the unfused member tasks: `Blockwise._task(i)`, `i < npartitions`, for the members `S` only;
     everything else is an input. -/
@@ -98,7 +112,13 @@ def groupOKb (dag : Dag) (root : Nat) (G : List Nat) : Bool :=
     G.all (fun g => isBw dag g && decide (g ∈ m.seen)) &&
     G.tail.all (fun g =>
       (m.dependents.val g).all (fun c => decide (c ∈ G)) &&
+      G.any (fun c => decide (g ∈ depsOf dag c)) &&
       (npartOf dag g == npartOf dag (G.headD 0) ||
         G.any (fun c => decide (g ∈ depsOf dag c) && bcastN dag c g)))
+
+/-- a decidable sufficient condition for `PlanOK` (Lemmas/FusionMeasure.lean): the root is a node and
+    operands have smaller names than their consumers (post-order numbering) -/
+def planOKb (dag : Dag) (root : Nat) : Bool :=
+  (getNode dag root).isSome && dag.all (fun nd => nd.deps.all (fun d => decide (d < nd.name)))
 
 end Dx.Fusion
